@@ -523,6 +523,7 @@ type SolveOpts struct {
 	TimeoutMs int
 	AllSolvers bool // thorough: run all solvers, disagreement = error
 	Single    bool // scan: z3-new only
+	NoBatch   bool
 	Dir       string
 	Seed      int
 }
@@ -688,6 +689,42 @@ func matchParen(s string, start int) int {
 
 // solve all obligations with a worker pool
 func solveAll(obs []*Obligation, o SolveOpts) {
+	// first pass: one incremental process per function (only its `unsat` answers are kept)
+	if !o.AllSolvers && !o.NoBatch {
+		byScript := map[*Script][]*Obligation{}
+		var scripts []*Script
+		for _, ob := range obs {
+			if ob.script == nil {
+				continue
+			}
+			if _, seen := byScript[ob.script]; !seen {
+				scripts = append(scripts, ob.script)
+			}
+			byScript[ob.script] = append(byScript[ob.script], ob)
+		}
+		var bw sync.WaitGroup
+		sem := make(chan struct{}, 16)
+		for i, sc := range scripts {
+			if len(byScript[sc]) < 4 {
+				continue
+			}
+			bw.Add(1)
+			sem <- struct{}{}
+			go func(i int, sc *Script) {
+				defer bw.Done()
+				defer func() { <-sem }()
+				solveBatch(sc, byScript[sc], o, i)
+			}(i, sc)
+		}
+		bw.Wait()
+		var rest []*Obligation
+		for _, ob := range obs {
+			if ob.Status != "unsat" || ob.Cover {
+				rest = append(rest, ob)
+			}
+		}
+		obs = rest
+	}
 	var wg sync.WaitGroup
 	ch := make(chan *Obligation)
 	for w := 0; w < 16; w++ {
